@@ -6,27 +6,44 @@ Import ListNotations.
 
 Inductive line :=
 | LOk (consumed total : nat) (sexp : string)
-| LErr
-| LFuel.
+| LErr (consumed total : nat) (spans : list (N * N * N))      (* line, col_start, col_end of each error *)
+| LFuel
+| LPanic.
 
-Inductive mode := MExpr | MStmt | MOuter | MType.
+Inductive mode := MExpr | MStmt | MOuter | MType | MModule.
 
-Definition finish {A : Type} (total : nat) (pr : A -> string) (r : res (A * ctx)) : line :=
-  match r with
-  | Ok (x, c) => LOk (consumed c) total (pr x)
-  | Err => LErr
-  | Fuel => LFuel
+(* Context::span(): the span of the token at the index, of the last token past the end, zero without tokens *)
+Definition span_at (pts : list ptoken) (pos : nat) : N * N * N :=
+  match nth_error pts pos with
+  | Some p => (line_start (t_span p), col_start (t_span p), col_end (t_span p))
+  | None =>
+      match rev pts with
+      | p :: _ => (line_start (t_span p), col_start (t_span p), col_end (t_span p))
+      | [] => (0, 0, 0)%N
+      end
   end.
 
-Definition drive_toks (T : ptab) (m : mode) (ts : list tok) : line :=
+Definition finish {A : Type} (pts : list ptoken) (pr : A -> string) (r : res (A * ctx)) : line :=
+  match r with
+  | Ok (x, c) => LOk (consumed c) (length pts) (pr x)
+  | Err c es => LErr (consumed c) (length pts) (map (span_at pts) es)
+  | Fuel => LFuel
+  | Panic => LPanic
+  end.
+
+Definition sexp_module (ss : list stmt) : string :=
+  ("(module" ++ concat_map (fun s => " " ++ sexp_s s) ss ++ ")")%string.
+
+Definition drive_toks (T : ptab) (m : mode) (pts : list ptoken) : line :=
+  let ts := map classify pts in
   let f := default_fuel ts in
-  let n := length ts in
   match m with
-  | MExpr => finish n sexp_e (parse_expression T f ts)
-  | MStmt => finish n sexp_s (parse_statement T f ts)
-  | MOuter => finish n sexp_s (parse_outer_statement T f ts)
-  | MType => finish n sexp_ty (parse_type_top T f ts)
+  | MExpr => finish pts sexp_e (parse_expression T f ts)
+  | MStmt => finish pts sexp_s (parse_statement T f ts)
+  | MOuter => finish pts sexp_s (parse_outer_statement T f ts)
+  | MType => finish pts sexp_ty (parse_type_top T f ts)
+  | MModule => finish pts sexp_module (parse_program T f ts)
   end.
 
 Definition drive (lt : Logos.table) (T : ptab) (m : mode) (src : list N) : line :=
-  drive_toks T m (map classify (lex lt src)).
+  drive_toks T m (lex lt src).
